@@ -104,12 +104,17 @@ class BaseEngine:
         return {}
 
     def search(self, rng, tier, seed, failures):
-        """correspondence broke but the oracle found nothing: generate a larger neighbourhood and
-        look for an input on which the *property* fails on the implementation"""
+        """correspondence broke but the oracle found nothing: generate further neighbourhoods (other
+        seeds, same generator classes) and look for an input on which the *property* fails on the
+        implementation; bounded so that the check still ends in minutes"""
+        import time as _t
         out = []
-        for k in range(3):
-            cases = self.generate(random.Random("%s/search/%d/%d" % (self.prop, seed, k)), "thorough" if tier == "quick" else tier)
-            fs, _, _, _ = self.run_cases(cases[:200000], seed)
+        t0 = _t.time()
+        for k in range(4):
+            if _t.time() - t0 > 90:
+                break
+            cases = self.generate(random.Random("%s/search/%d/%d" % (self.prop, seed, k)), tier)
+            fs, _, _, _ = self.run_cases(cases[:60000], seed)
             orc = [f for f in fs if f[0] == "oracle"]
             if orc:
                 out.extend(orc[:3])
